@@ -269,10 +269,17 @@ RECURSIVE JoinSp(_, _, _)
 JoinSp(m, vs, i) == IF i > Len(vs) THEN <<>>
                     ELSE (IF i > 1 THEN <<32>> ELSE <<>>) \o Show(m, vs[i]) \o JoinSp(m, vs, i + 1)
 
+\* a string whose text the model does not know exactly (it contains the wildcard code point 0: the digits of a
+\* non-integer, a map printed with several entries; or "<?>": an address).  It can be printed and concatenated,
+\* everything that looks inside it is undecided
+WildStr(v) == v.t = "str" /\ \E i \in 1 .. Len(v.cp) :
+                 v.cp[i] = 0 \/ (i + 2 <= Len(v.cp) /\ v.cp[i] = 60 /\ v.cp[i + 1] = 63 /\ v.cp[i + 2] = 62)
+
 \* ---------------------------------------------------------------------------
 \* Binary operators
 BinOp(m, op, a, b, site) ==
-  CASE op \in {"+"} ->
+  CASE op \in {"<", "<=", ">", ">=", "==", "!="} /\ IsStr(a) /\ IsStr(b) /\ (WildStr(a) \/ WildStr(b)) -> Val(m, Poison)
+    [] op \in {"+"} ->
          IF IsNum(a) /\ IsNum(b) THEN Val(m, Arith(op, a, b))
          ELSE IF IsStr(a) /\ IsStr(b) THEN Val(m, S(a.cp \o b.cp))
          ELSE Throw(m, "RuntimeError", site)
@@ -595,8 +602,9 @@ MapInvoke(m, obj, name, args, site) ==
 
 StrInvoke(m, obj, name, args, site) ==
   LET cp == obj.cp len == Len(cp) n == Len(args) IN
-  CASE name = "len" /\ n = 0 -> Val(m, N(len))
-    [] name = "str" /\ n = 0 -> Val(m, obj)
+  CASE name = "str" /\ n = 0 -> Val(m, obj)
+    [] WildStr(obj) \/ (\E i \in 1 .. n : WildStr(args[i])) -> Val(m, Poison)
+    [] name = "len" /\ n = 0 -> Val(m, N(len))
     [] name = "has" /\ n = 1 -> IF IsStr(args[1]) THEN Val(m, B(HasSub(cp, args[1].cp))) ELSE Throw(m, "RuntimeError", site)
     [] name = "upCase" /\ n = 0 -> Val(m, S([i \in 1 .. len |-> Upper(cp[i])]))
     [] name = "downCase" /\ n = 0 -> Val(m, S([i \in 1 .. len |-> Lower(cp[i])]))
@@ -842,7 +850,8 @@ IndexGet(m0, o, v, n) ==
       IF p = 0 THEN ThrowN(m0, "KeyError", n, "[]") ELSE Val(m0, m0.heap[o.n].xs[p + 1])
   ELSE IF o.t = "str" THEN
     LET len == Len(o.cp) IN
-      IF ~IsNum(v) THEN Throw(m0, "RuntimeError", n)
+      IF WildStr(o) THEN Val(m0, Poison)
+      ELSE IF ~IsNum(v) THEN Throw(m0, "RuntimeError", n)
       ELSE IF v.x = "frac" THEN ThrowN(m0, "IndexError", n, "[]")
       ELSE IF ~IsInt(v) THEN Val(m0, Poison)
       ELSE LET ix == IF v.n < 0 THEN len + v.n ELSE v.n IN
